@@ -5,7 +5,7 @@
    differential runs exercise). *)
 From Coq Require Import List Arith NArith Bool.
 From Coq.Strings Require Import Byte.
-From EZK Require Import Gen.Tables Lib.Bytes Lib.Num Lib.Utf8 Model.C03 Proofs.C03 Proofs.C03b Model.C02 Proofs.C02 Proofs.C02b Proofs.C02c.
+From EZK Require Import Model.Forms8 Proofs.Forms8 Gen.Tables Lib.Bytes Lib.Num Lib.Utf8 Model.C03 Proofs.C03 Proofs.C03b Model.C02 Proofs.C02 Proofs.C02b Proofs.C02c.
 From EZK Require Model.C10 Proofs.C10 Model.C17 Proofs.C17.
 Import ListNotations.
 Close Scope N_scope.
@@ -112,3 +112,19 @@ Example C02_example :
   let good := B"OPTIONS sip:a SIP/2.0" ++ [CR; LF] ++ B"l: 2" ++ [CR; LF; CR; LF] ++ B"ok" in
   fst (udp_loop true true [bad; ka_req; good]) = [Dropped; KeepAlive; Delivered 31 (B"ok")].
 Proof. vm_compute. reflexivity. Qed.
+
+(* transaction dispatch for a request nobody takes: the kind of server transaction for the 481 follows the request line - the method the
+   constructors assert on - so no pair (request-line method, CSeq method) makes the receive path panic; chosen by the transaction key
+   (CSeq method) a request whose two methods disagree would run into the constructor's assertion *)
+Theorem C02_unwanted_kind_guard : unwanted_kind_from_line = true.
+Proof. reflexivity. Qed.
+
+Theorem C02_unwanted_dispatch_total : unwanted_kind_from_line = true -> forall line_m cseq_m, unwanted_ok line_m cseq_m = true.
+Proof. exact unwanted_ok_here. Qed.
+
+Theorem C02_unwanted_by_key_refuted :
+  unwanted_ok_form false ROther RInvite = false /\ unwanted_ok_form false ROther RAck = false /\ unwanted_ok_form false RInvite ROther = false.
+Proof. exact unwanted_from_key_panics. Qed.
+
+Example C02_unwanted_wellformed_agree : forall m b, unwanted_ok_form b m m = true.
+Proof. exact unwanted_forms_agree_on_wellformed. Qed.
